@@ -216,12 +216,24 @@ def row_items(lens_list):
     return items
 
 
-def row_clause(binary, B, queries, samples, violations, infra):
+_ROW_GUARD = {}
+
+
+def row_guard(binary, samples, violations):
     import itertools
     # ---- stage 0 (native guard, enumeration, independent of the extractor): every text of <= 3 lines of 0..2 characters, every span on character boundaries
     shapes = [(list(ls), "x") for m in (1, 2, 3) for ls in itertools.product((0, 1, 2), repeat=m)] + [(list(ls), "\u00e9") for m in (2, 3) for ls in itertools.product((0, 1), repeat=m)]
     items = row_items(shapes)
     res = run_driver(binary, [{"text": t, "start": s_, "end": e_} for t, _, s_, e_ in items])
+    # the same inputs with the span given relative to an outer span that starts at the span's start / one byte earlier
+    res_outer = run_driver(binary, [{"text": t, "outer": max(s_ - (k % 2), 0), "start": s_ - max(s_ - (k % 2), 0), "end": e_ - max(s_ - (k % 2), 0)} for k, (t, _, s_, e_) in enumerate(items)])
+    for (t, blens, s_, e_), r, ro in zip(items, res, res_outer):
+        if (r.get("panic"), r.get("row")) != (ro.get("panic"), ro.get("row")) and not violations:
+            rp = os.path.join(REPLAYS, PROP, "row_guard_outer")
+            os.makedirs(rp, exist_ok=True)
+            with open(os.path.join(rp, "REPLAY.md"), "w") as f:
+                f.write("Property C31 (native row guard, outer span): text %r, span bytes [%d,%d): row %r without an outer span, %r with the same span given relative to an outer span\n" % (t, s_, e_, r, ro))
+            violations.append(("native row guard: text %r, span bytes [%d,%d): the reported row differs when the same span is given relative to an outer span (%r vs %r)" % (t, s_, e_, r.get("row"), ro.get("row")), rp))
     n_guard = 0
     for (t, blens, s_, e_), r in zip(items, res):
         want = expected_row(blens, s_)
@@ -239,6 +251,11 @@ def row_clause(binary, B, queries, samples, violations, infra):
             violations.append(("native row guard: text %r, span bytes [%d,%d): reported row is %r, the span starts on line %r" % (t, s_, e_, got, want), rp))
             samples.append({"text": t, "span_bytes": [s_, e_], "real_row": got, "expected_row": want, "stage": "row guard"})
             break
+    _ROW_GUARD.update(items=items, res=res, n_guard=n_guard)
+
+
+def row_clause(binary, B, queries, samples, violations, infra):
+    items, res, n_guard = _ROW_GUARD["items"], _ROW_GUARD["res"], _ROW_GUARD["n_guard"]
     R = extract_row()
     # ---- translator validation: the extracted state machine reproduces the row the real function reports
     n_valid = 0
@@ -257,6 +274,8 @@ def row_clause(binary, B, queries, samples, violations, infra):
             q.add(x >= 0, x <= B["row_line_len"])
         total = z3.Sum(L) + (m - 1) if m > 1 else L[0]
         q.add(s >= 0, s < e, e <= total)
+        o = z3.Int("outer")                       # start of the outer span: actual_span = outer start + inner span (statement checked by extract())
+        q.add(o >= 0, o <= s)
         state, row, uf, sol = z3.IntVal(0), z3.IntVal(-1), z3.BoolVal(False), z3.IntVal(0)
         exp = z3.IntVal(-1)
         for i in range(m):
@@ -281,9 +300,9 @@ def row_clause(binary, B, queries, samples, violations, infra):
             raise Inconclusive("solver answered %s" % r)
         mdl = q.model()
         ev = lambda t: mdl.eval(t, model_completion=True).as_long()
-        lens, s_, e_ = [ev(x) for x in L], ev(s), ev(e)
+        lens, s_, e_, o_ = [ev(x) for x in L], ev(s), ev(e), ev(o)
         text = "\n".join("x" * l for l in lens)
-        rr = run_driver(binary, [{"text": text, "start": s_, "end": e_}])[0]
+        rr = run_driver(binary, [{"text": text, "outer": o_, "start": s_ - o_, "end": e_ - o_}])[0]
         got = "PANIC" if rr.get("panic") else rr.get("row")
         want = expected_row(lens, s_)
         samples.append({"text": text, "span_bytes": [s_, e_], "real_row": got, "expected_row": want})
@@ -293,7 +312,7 @@ def row_clause(binary, B, queries, samples, violations, infra):
         rp = os.path.join(REPLAYS, PROP, "row_lines%d" % m)
         os.makedirs(rp, exist_ok=True)
         with open(os.path.join(rp, "input.json"), "w") as f:
-            f.write(json.dumps({"text": text, "start": s_, "end": e_}) + "\n")
+            f.write(json.dumps({"text": text, "outer": o_, "start": s_ - o_, "end": e_ - o_}) + "\n")
         with open(os.path.join(rp, "REPLAY.md"), "w") as f:
             f.write("Property C31: text %r, span bytes [%d,%d): reported row %r, the span starts on line %r\nRun: bash %s/replay.sh\n" % (text, s_, e_, got, want, rp))
         with open(os.path.join(rp, "replay.sh"), "w") as f:
@@ -334,6 +353,8 @@ def main():
                 violations.append(("native probe guard: text %r, span = characters [%d,%d) of its last line: caret line is %r, one caret per character would be %r" % (text, a_, b_, real, expected), rp))
                 samples.append({"text": text, "span_chars": [a_, b_], "real_caret_line": real, "expected": expected, "stage": "probe guard"})
                 break
+        # ---- stage 0 for clause B (independent of both extractors): the reported row on every small text / span, with and without an outer span
+        row_guard(binary, samples, violations)
         X = extract()
         # ---- translator validation: the extracted loop domains reproduce the real caret line on probes (ASCII and not)
         probes = PROBES
@@ -406,6 +427,7 @@ def main():
             if done:
                 break
         # ---- clause B: the reported row
+        n_row_guard = _ROW_GUARD.get("n_guard", 0)
         if not violations and not infra:
             R, n_row_guard, n_row_valid = row_clause(binary, B, queries, samples, violations, infra)
         n_unsat = len([q for q in queries if q["result"] == "unsat"])
